@@ -12,11 +12,9 @@ theorem needs that bound).  Offsets are written as the macros expand them:
 * `grow c` is `(size_t)(c * exp_factor)`; the driver instantiates it with `Float32`.
 * Elements handed in by the caller are byte lists `e`; the C code reads exactly `data_length`
   bytes from them (precondition of the API: the caller's buffer has that many bytes).
-* Byte counts handed to the allocator (`capacity * data_length`) are natural numbers.  At
-  construction the guard of `new_conf` bounds the product by `CC_MAX_ELEMENTS < 2^64`
-  (`new_ok`); `expand_capacity` has no such guard, so for it the model does not describe
-  `size_t` wrap-around of `new_capacity * data_length` (that needs a live buffer of more than
-  2^62 bytes).
+* Byte counts handed to the allocator (`capacity * data_length`) are natural numbers; the guards
+  of `new_conf` and `expand_capacity` keep the product `≤ CC_MAX_ELEMENTS < 2^64` (it is part of
+  `Inv`), so no `size_t` wrap-around is hidden by that.
 * A block obtained from `mem_alloc` is filled with `poison` (the harness allocator does that), a
   block from `mem_calloc` with 0. -/
 namespace CC
@@ -50,14 +48,11 @@ def chunk (a : ArraySized) (i : Nat) : List Nat := chunkAt a.dataLen a.buf i
 /-- abstraction: the stored elements as byte vectors -/
 def abs (a : ArraySized) : List (List Nat) := (List.range a.size).map a.chunk
 
-/-- representation invariant -/
+/-- representation invariant; the last conjunct (established by the guard of `new_conf`, kept by
+the guard of `expand_capacity`) says that the buffer size in bytes fits `size_t` -/
 def Inv (a : ArraySized) : Prop :=
   0 < a.dataLen ∧ 0 < a.capacity ∧ a.size ≤ a.capacity ∧ a.capacity * a.dataLen ≤ a.buf.length ∧
-  a.capacity ≤ CC_MAX_ELEMENTS
-
-/-- the conversion `(size_t)(capacity * exp_factor)` is defined (C11 6.3.1.4; otherwise the
-behaviour is undefined), and the largest `float` below 2^64 is 2^64 − 2^40 -/
-def GrowOk (a : ArraySized) : Prop := ∀ c, a.grow c ≤ CC_MAX_ELEMENTS
+  a.capacity * a.dataLen ≤ CC_MAX_ELEMENTS
 
 instance (a : ArraySized) : Decidable a.Inv := by unfold Inv; infer_instance
 
@@ -78,12 +73,24 @@ def new (dl cap : Nat) (grow : Nat → Nat) (exGe : Nat → Bool) (m : Mem) :
 /-- `cc_array_sized_destroy` -/
 def destroy (_a : ArraySized) (m : Mem) : Mem := m.free.free
 
-/-- `expand_capacity` -/
+/-- the capacity `expand_capacity` asks for: the float product, or — when that made no progress
+(overflow, or a factor too small at this capacity) — one more slot, resp. `CC_MAX_ELEMENTS` -/
+def nextCapacity (a : ArraySized) : Nat :=
+  let nc := a.grow a.capacity
+  if nc ≤ a.capacity then
+    (if a.capacity < CC_MAX_ELEMENTS / 2 then a.capacity + 1 else CC_MAX_ELEMENTS) else nc
+
+/-- the array cannot grow any further: `CC_ERR_MAX_CAPACITY` -/
+def AtLimit (a : ArraySized) : Prop :=
+  a.capacity = CC_MAX_ELEMENTS ∨ CC_MAX_ELEMENTS / a.dataLen < a.nextCapacity
+
+/-- `expand_capacity` (after repair A10: a new capacity whose buffer size in bytes would exceed
+`CC_MAX_ELEMENTS` is refused with `CC_ERR_MAX_CAPACITY` before anything is allocated) -/
 def expandCapacity (a : ArraySized) (m : Mem) : Stat × ArraySized × Mem :=
   if a.capacity = CC_MAX_ELEMENTS then (.errMaxCapacity, a, m) else
-  let nc := a.grow a.capacity
-  let nc := if nc ≤ a.capacity then
-      (if a.capacity < CC_MAX_ELEMENTS / 2 then a.capacity + 1 else CC_MAX_ELEMENTS) else nc
+  let nc := a.nextCapacity
+  let m := m.check (a.dataLen != 0)
+  if nc > CC_MAX_ELEMENTS / a.dataLen then (.errMaxCapacity, a, m) else
   let al := m.alloc
   if !al.1 then (.errAlloc, a, al.2) else
   let nb := fresh (nc * a.dataLen)
